@@ -637,19 +637,9 @@ Section Options.
       revert H. generalize (v :: l). clear v l. intros l. induction l as [|v l IHl]; [reflexivity|].
       cbn [forallb map]. intros H. apply andb_true_iff in H as [H1 H2]. f_equal; [apply IH; exact H1|apply IHl; exact H2].
     - assert (A : forall d0 : dict,
-                (fix go (l : dict) : bool :=
-                   match l with [] => true | (k, x) :: r => no_newline k && pv_plain x && go r end) d0 = true ->
-                (fix go (l : dict) : list node :=
-                   match l with
-                   | [] => []
-                   | (k, x) :: r => Elem n_key [] (text_kids (reindent o1 k)) :: pv_node ff fi o1 x :: go r
-                   end) d0
-                = (fix go (l : dict) : list node :=
-                     match l with
-                     | [] => []
-                     | (k, x) :: r => Elem n_key [] (text_kids (reindent o2 k)) :: pv_node ff fi o2 x :: go r
-                     end) d0).
-      { induction d0 as [|[k x] d0 IHd]; [reflexivity|]. intros H0.
+                forallb (fun kx => let '(k, x) := kx in no_newline k && pv_plain x) d0 = true ->
+                dict_nodes o1 (pv_node ff fi o1) d0 = dict_nodes o2 (pv_node ff fi o2) d0).
+      { induction d0 as [|[k x] d0 IHd]; [reflexivity|]. cbn [forallb dict_nodes]. intros H0.
         apply andb_true_iff in H0 as [H0 H3]. apply andb_true_iff in H0 as [H1 H2].
         apply no_newline_spec in H1. rewrite !reindent_no_newline by exact H1.
         f_equal. f_equal; [apply IH; exact H2|apply IHd; exact H3]. }
